@@ -118,7 +118,11 @@ def gen(seed, run, tier='quick'):
                     # callers on several threads: in a quarter of the runs
                     # every `threads`-th step (by its arguments) is made
                     # from a fresh thread while the main thread lives on
-                    'threads': rng.choice([0, 0, 0, 2, 3, 5])}, 'ops': ops}
+                    'threads': rng.choice([0, 0, 0, 2, 3, 5]),
+                    # the process runs with warnings turned into errors
+                    # (python -W error, a strict test configuration)
+                    'warnings_as_errors': rng.random() < 0.25},
+            'ops': ops}
 
 
 def shrink_args(h):
@@ -1006,6 +1010,12 @@ def set_rounding(name):
         decimalfp.set_dflt_rounding_mode(getattr(decimalfp.ROUNDING, name))
 
 
+def set_warnings(as_errors):
+    if as_errors:
+        import warnings
+        warnings.simplefilter('error')
+
+
 HANG_S = 3.0
 
 
@@ -1045,6 +1055,7 @@ def perform_step(env, act):
 def run_a1(h):
     """World A1: resolve intents, find out what the library rejects."""
     set_rounding(h['cfg'].get('rounding'))
+    set_warnings(h['cfg'].get('warnings_as_errors'))
     st = State()
     env = Env16()
     if h['cfg']['variant'] == 'predefined':
@@ -1093,7 +1104,8 @@ def run_a1(h):
 def run_concrete(arg):
     """Worlds A2 and B: execute concrete actions, observe after each."""
     actions, symbols, typenames, variant, pairs, rmode = arg
-    set_rounding(rmode)
+    set_rounding(rmode[0] if isinstance(rmode, list) else rmode)
+    set_warnings(isinstance(rmode, list) and rmode[1])
     env = Env16()
     if variant == 'predefined':
         decl.seed_catalogue(decl.RefDir(), env)
@@ -1143,7 +1155,8 @@ def judge(h):
             if p not in pairs:
                 pairs.append(p)
     pairs = pairs[:12]
-    rmode = h['cfg'].get('rounding')
+    rmode = [h['cfg'].get('rounding'),
+             bool(h['cfg'].get('warnings_as_errors'))]
     obs_a = core.run_in_child(run_concrete,
                               (plain, symbols, typenames, variant, pairs,
                                rmode))
@@ -1256,7 +1269,7 @@ def judge(h):
         kept_c = [a for a, full in zip(kept, kept_full) if not refused(full)]
         obs_c = core.run_in_child(run_concrete,
                                   (kept_c, symbols, typenames, variant,
-                                   pairs, h['cfg'].get('rounding')))
+                                   pairs, rmode))
         n_worlds = 4
         compare(kept_full, obs_b, obs_c, refused, 'B/C', False)
     n_rej = sum(1 for a in actions if deleted(a))
